@@ -255,8 +255,9 @@ class ExecArgFlags(ExecArgs):
     name = 'flag value / list item inside an exec args tuple'
 
     def source(self, W, vals):
-        return 'out exec {command = %s, args = ["first", {%s}, {it = [%s]}, "last"]};\n' % (
-            lit(W.pa), ', '.join('f%d = %s' % (i, lit(v)) for i, v in enumerate(vals)), ', '.join(lit(v) for v in vals))
+        # bound by let first: deeply nested literals make the parser crawl
+        return 'let fl = {%s};\nlet items = [%s];\nlet li = {it = items};\nout exec {command = %s, args = ["first", fl, li, "last"]};\n' % (
+            ', '.join('f%d = %s' % (i, lit(v)) for i, v in enumerate(vals)), ', '.join(lit(v) for v in vals), lit(W.pa))
 
     def expected(self, W, vals):
         res = [b'first']
@@ -294,22 +295,21 @@ def shells_for(W, pl):
     if pl.ext != 'sh':
         return SHELLS
     if W.dash_exec is None:
-        W.write('probe.ucg', 'out exec {command = %s, args = ["x"]};\n' % lit(W.pa))
-        W.build(['probe.ucg'])
+        if W.read('probe.sh') is None:
+            W.write('probe.ucg', 'out exec {command = %s, args = ["x"]};\n' % lit(W.pa))
+            W.build(['probe.ucg'])
         out, err, pw = W.sh('/bin/sh', '. ./%s\n' % W.for_shell('sh', 'probe.sh'), flags=['-a'])
         rec = parse_pa(out)
         W.dash_exec = bool(rec and rec[1] == [b'x'])
     return SHELLS if W.dash_exec else SHELLS[1:]
 
 
-def check_batch(W, pl, tag, vals):
-    """Build one artifact holding all vals in placement pl, let every shell read it.  Returns None or a failure dict."""
+def observe_batch(W, pl, tag, vals):
+    """The artifact tag.ext holds all vals in placement pl: let every shell read it.  Returns None or a failure dict."""
     src = pl.source(W, vals)
-    W.write(tag + '.ucg', src)
     art = tag + '.' + pl.ext
-    bad = W.build([tag + '.ucg'])
-    if bad or W.read(art) is None:
-        return dict(source=src, expected='builds', observed='build failed: %s' % (bad[1] if bad else 'no artifact'), how='`ucg build %s.ucg`' % tag, shell='-')
+    if W.read(art) is None:
+        return dict(source=src, expected='builds', observed='no artifact', how='`ucg build %s.ucg`' % tag, shell='-')
     exp = pl.expected(W, vals)
     for shname, shell in shells_for(W, pl):
         got, err, pw, how = pl.observe(W, shname, shell, art, vals)
@@ -319,11 +319,29 @@ def check_batch(W, pl, tag, vals):
     return None
 
 
+def check_batch(W, pl, tag, vals):
+    """Build one artifact holding all vals in placement pl, let every shell read it.  Returns None or a failure dict."""
+    src = pl.source(W, vals)
+    W.write(tag + '.ucg', src)
+    art = tag + '.' + pl.ext
+    if os.path.exists(os.path.join(W.dir, art)):
+        os.remove(os.path.join(W.dir, art))
+    bad = W.build([tag + '.ucg'])
+    if bad or W.read(art) is None:
+        return dict(source=src, expected='builds', observed='build failed: %s' % (bad[1] if bad else 'no artifact'), how='`ucg build %s.ucg`' % tag, shell='-')
+    return observe_batch(W, pl, tag, vals)
+
+
 def localise(W, pl, vals):
     """A batch failed: find a single value that fails on its own (smallest replay)."""
     for i, v in enumerate(vals):
-        f = check_batch(W, pl, 'one', [v])
+        W.write('one%d.ucg' % i, pl.source(W, [v]))
+    W.build(['one%d.ucg' % i for i in range(len(vals))])
+    for i, v in enumerate(vals):
+        f = observe_batch(W, pl, 'one%d' % i, [v])
         if f:
+            if f['shell'] == '-':
+                f = check_batch(W, pl, 'one', [v]) or f
             return v, f
     return None, None
 
@@ -348,14 +366,20 @@ def standin_sh_values(tier, seed):
     n = 0
     bound = '%s; each placed as env value, flags value, list-flag item, exec args item, flag value/item in an exec args tuple and exec env value (batched, %d per artifact); read by /bin/sh (dash) and bash' % (desc, CHUNK)
     try:
-        for pl in PLACEMENTS:
+        jobs = []
+        for pi, pl in enumerate(PLACEMENTS):
             for c in range(0, len(vals), CHUNK):
-                chunk = vals[c:c + CHUNK]
-                f = check_batch(W, pl, 'b%d' % (c // CHUNK), chunk)
-                n += len(chunk)
-                if f:
-                    v, f1 = localise(W, pl, chunk)
-                    return failure('sh_values', bound, n, pl, v, f1 or f)
+                tag = 'p%d_%d' % (pi, c // CHUNK)
+                W.write(tag + '.ucg', pl.source(W, vals[c:c + CHUNK]))
+                jobs.append((pl, tag, vals[c:c + CHUNK]))
+        W.write('probe.ucg', 'out exec {command = %s, args = ["x"]};\n' % lit(W.pa))
+        W.build(['probe.ucg'] + [tag + '.ucg' for _, tag, _ in jobs])   # a failing build shows up as a missing artifact below
+        for pl, tag, chunk in jobs:
+            f = observe_batch(W, pl, tag, chunk)
+            n += len(chunk)
+            if f:
+                v, f1 = localise(W, pl, chunk)
+                return failure('sh_values', bound, n, pl, v, f1 or f)
         if W.dash_exec is False:
             bound += ' (exec scripts: bash only, dash rejects the prologue)'
     finally:
@@ -367,7 +391,9 @@ def standin_sh_values(tier, seed):
 def standin_sh_command(tier, seed):
     vals, desc = value_set(tier, seed)
     rnd = random.Random(seed)
-    vals = [v for v in vals if v and '/' not in v and v not in ('.', '..') and len(v.encode()) < 200]
+    # not a program name: empty, with `/`, `.`/`..`; a leading `-` is read by the `exec` builtin as ITS option although the word arrives
+    # unaltered (outside the property's alphabet, not a quoting matter)
+    vals = [v for v in vals if v and '/' not in v and v not in ('.', '..') and not v.startswith('-') and len(v.encode()) < 200]
     if tier == 'thorough':
         short = [v for v in vals if len(v) <= 3 or any(c not in ALPHA for c in v)]
         long = [v for v in vals if len(v) == 4 and all(c in ALPHA for c in v)]
@@ -384,7 +410,8 @@ def standin_sh_command(tier, seed):
             W.write('c%d.ucg' % i, 'out exec {command = %s, args = ["x y", "z"]};\n' % lit(v))
             os.symlink(W.pa, os.path.join(W.cmds, v))
             names.append('c%d.ucg' % i)
-        bad = W.build(names)
+        W.write('probe.ucg', 'out exec {command = %s, args = ["x"]};\n' % lit(W.pa))
+        bad = W.build(names + ['probe.ucg'])
         if bad:
             miss = [i for i in range(len(vals)) if W.read('c%d.sh' % i) is None]
             i = miss[0] if miss else 0
@@ -429,8 +456,14 @@ def field(kind, i):
         return 'NULL', None, [(b'--f%d' % i, True)]          # bare flag (reference example) or nothing
     if kind == 'l':
         # skipped items (tuple, list) in the middle, scalars after them
-        return '[7, {x = 1}, [2], "s %d", {y = "z"}, true]' % i, None, [(b'--f%d' % i, False), (b'7', False), (b'--f%d' % i, False), (b's %d' % i, False), (b'--f%d' % i, False), (b'true', False)]
-    return '{a = 1, b = "x"}', None, []
+        return 'lst%d' % i, None, [(b'--f%d' % i, False), (b'7', False), (b'--f%d' % i, False), (b's %d' % i, False), (b'--f%d' % i, False), (b'true', False)]
+    return 'sub', None, []
+
+
+# the nested values are bound first: the parser's running time explodes with the nesting depth of literals
+def prelude(combo):
+    return ''.join('let sub = {a = 1, b = "x"};\n' if k == 't' and 't' not in combo[:i] else
+                   'let lst%d = [7, {x = 1}, [2], "s %d", {y = "z"}, true];\n' % (i, i) if k == 'l' else '' for i, k in enumerate(combo))
 
 
 def matches(got, pattern):
@@ -461,9 +494,9 @@ def standin_sh_field_order(tier, seed):
         for ci, combo in enumerate(combos):
             fl = [field(k, i) for i, k in enumerate(combo)]
             tup = '{%s}' % ', '.join('f%d = %s' % (i, f[0]) for i, f in enumerate(fl))
-            for fam, src in (('e', 'out env %s;\n' % tup), ('f', 'out flags %s;\n' % tup),
-                             ('x', 'out exec {command = %s, args = ["first", %s, "la st"]};\n' % (lit(W.pa), tup))):
-                W.write('%s%d.ucg' % (fam, ci), src)
+            for fam, src in (('e', 'out env tup;\n'), ('f', 'out flags tup;\n'),
+                             ('x', 'out exec {command = %s, args = ["first", tup, "la st"]};\n' % lit(W.pa))):
+                W.write('%s%d.ucg' % (fam, ci), prelude(combo) + 'let tup = %s;\n' % tup + src)
                 names.append('%s%d.ucg' % (fam, ci))
             meta.append((combo, fl, tup))
         # layouts of the exec tuple itself
@@ -475,7 +508,8 @@ def standin_sh_field_order(tier, seed):
         for li, perm in enumerate(layouts):
             W.write('y%d.ucg' % li, 'out exec {%s};\n' % ', '.join(parts[p] for p in perm))
             names.append('y%d.ucg' % li)
-        bad = W.build(names)
+        W.write('probe.ucg', 'out exec {command = %s, args = ["x"]};\n' % lit(W.pa))
+        bad = W.build(names + ['probe.ucg'])
         if bad:
             miss = [nm for nm in names if not any(W.read(nm[:-4] + e) is not None for e in ('.env', '.txt', '.sh'))]
             nm = miss[0] if miss else bad[0][0]
@@ -488,7 +522,7 @@ def standin_sh_field_order(tier, seed):
 
         def viol(src, art, exp, got, how, sh):
             return dict(name='sh_field_order', bound=bound, cases=n, status='violation',
-                        detail=('`%s` read by %s: %s, expected %s' % (src.strip(), sh, got, exp))[:600],
+                        detail=('`%s` read by %s: %s, expected %s' % (src.strip().replace('\n', ' '), sh, got, exp))[:600],
                         input=dict(source=src, expected=exp, observed=got, artifact=(W.read(art) or b'').decode('utf-8', 'replace'), how=how))
 
         # env: order / exactly-once on the text (`NAME=` at line starts), values and absence through the shells
@@ -498,7 +532,7 @@ def standin_sh_field_order(tier, seed):
             got = re.findall(r'(?m)^(f\d+)=', art)
             exp = ['f%d' % i for i, f in enumerate(fl) if f[1] is not None]
             if got != exp:
-                return viol('out env %s;' % tup, 'e%d.env' % ci, 'assignments to %s, each once, in this order' % exp, 'assignments to %s' % got, '`ucg build`, artifact text', 'text')
+                return viol(prelude(combo) + 'let tup = %s;\nout env tup;' % tup, 'e%d.env' % ci, 'assignments to %s, each once, in this order' % exp, 'assignments to %s' % got, '`ucg build`, artifact text', 'text')
         for shname, shell in SHELLS:
             text = ''.join('( . ./e%d.env; printf \'%%s\\0\' %s ); printf \'%%s\\0\' \'%s\'\n' % (
                 ci, ' '.join('"${f%d-%s}"' % (i, UNSET) for i in range(maxf)), end) for ci in range(len(meta)))
@@ -509,7 +543,7 @@ def standin_sh_field_order(tier, seed):
                 got = words(recs[ci]) if ci < len(recs) else []
                 exp = [(fl[i][1] if i < len(fl) and fl[i][1] is not None else UNSET.encode()) for i in range(maxf)]
                 if got != exp:
-                    return viol('out env %s;' % tup, 'e%d.env' % ci, 'f0..f%d = %s' % (maxf - 1, [w.decode() for w in exp]), 'f0..f%d = %s' % (maxf - 1, [w.decode('utf-8', 'replace') for w in got]),
+                    return viol(prelude(combo) + 'let tup = %s;\nout env tup;' % tup, 'e%d.env' % ci, 'f0..f%d = %s' % (maxf - 1, [w.decode() for w in exp]), 'f0..f%d = %s' % (maxf - 1, [w.decode('utf-8', 'replace') for w in got]),
                                 '`ucg build`, then `. ./x.env; printf \'%%s\\0\' "${f0-%s}" ...` in %s' % (UNSET, shell), shname)
             if pw:
                 return viol('(batch)', 'e0.env', 'nothing executed', 'PWNED created', 'env artifacts sourced by %s' % shell, shname)
@@ -523,7 +557,7 @@ def standin_sh_field_order(tier, seed):
                 got = [norm_flag(w) for w in words(recs[ci])] if ci < len(recs) else []
                 pat = [p for f in fl for p in f[2]]
                 if not matches(got, pat):
-                    return viol('out flags %s;' % tup, 'f%d.txt' % ci, 'argv: ' + show(pat) + '   ([..] optional)', 'argv: %s' % [w.decode('utf-8', 'replace') for w in got],
+                    return viol(prelude(combo) + 'let tup = %s;\nout flags tup;' % tup, 'f%d.txt' % ci, 'argv: ' + show(pat) + '   ([..] optional)', 'argv: %s' % [w.decode('utf-8', 'replace') for w in got],
                                 '`ucg build`, then `eval "set -- $(cat x.txt)"; printf \'%%s\\0\' "$@"` in %s' % shell, shname)
             if pw:
                 return viol('(batch)', 'f0.txt', 'nothing executed', 'PWNED created', 'flags artifacts eval-ed by %s' % shell, shname)
@@ -540,7 +574,7 @@ def standin_sh_field_order(tier, seed):
                 got = [norm_flag(w) for w in rec[1]] if rec else []
                 pat = [(b'first', False)] + [p for f in fl for p in f[2]] + [(b'la st', False)]
                 if not matches(got, pat):
-                    return viol('out exec {command = <printer>, args = ["first", %s, "la st"]};' % tup, 'x%d.sh' % ci, 'argv: ' + show(pat) + '   ([..] optional)',
+                    return viol(prelude(combo) + 'let tup = %s;\nout exec {command = "<printer>", args = ["first", tup, "la st"]};' % tup, 'x%d.sh' % ci, 'argv: ' + show(pat) + '   ([..] optional)',
                                 'argv: %s' % [w.decode('utf-8', 'replace') for w in got], how, shname)
             for li, perm in enumerate(layouts):
                 n += 1
